@@ -10,7 +10,7 @@ import Py4hwV.Proofs.C03Names
     * second clause: everything the instantiating side checks depends on the bound module only through its signature
       (`bodyErrs_congr`), so replacing a body by another one of the same name and signature changes nothing
       (`same_sig_interchangeable`), while two bodies under one name with different signatures do change the result
-      (`abs_binding_counterexample`, the shape of the real `Abs` finding);
+      (`abs_binding_counterexample_prefix_naming`, the shape of the `Abs` finding before /repo 97fed70 and of the open `Latch` one);
     * model of the emitter's naming functions: prefixes `w_`, `i_`, `reserved_` never produce a reserved word
       (`localWireName_not_keyword` …), `getValidVerilogName` avoids every IEEE 1364-2005 keyword (`validName_not_keyword`,
       full since /repo a15e5f4; the pre-fix table is kept only as a labelled historical counterexample), and the three
@@ -182,8 +182,11 @@ theorem same_sig_interchangeable (pre post : List Module) (a b : Module) (hn : a
   · exact h
   · rw [h1, h2]; simp [hs]
 
-/-- non-vacuity + negative witness, the shape of the real `Abs` finding: the same instance `.a .r .inverted`
-    is accepted when bound to the body that has the optional port and rejected when bound to the body without it. -/
+/-- non-vacuity + negative witness for "two bodies under one name with different signatures": the same instance
+    `.a .r .inverted` is accepted when bound to the body that has the optional port and rejected when bound to the body
+    without it.  HISTORICAL naming: this is what the emitter produced for `Abs` BEFORE /repo 97fed70, when both variants were
+    called `Abs8` (finding C03-abs-optional-port, fixed: the variant with the port is now `Abs8_inv`, so the two bodies no
+    longer meet under one name; the still-open instance of the same shape is `Latch<w>` with different d/e widths). -/
 def exTop : Module :=
   { name := "Top", params := [],
     ports := [⟨.inp, false, 8, "a"⟩, ⟨.out, false, 8, "r"⟩, ⟨.out, false, 1, "inverted"⟩],
@@ -195,15 +198,15 @@ def exAbsB : Module :=
   { name := "Abs8", params := [], ports := [⟨.inp, false, 8, "a"⟩, ⟨.out, false, 8, "r"⟩, ⟨.out, false, 1, "inverted"⟩],
     items := [.assign (.lid "r") (.id "a"), .assign (.lid "inverted") (.idx "a" (.num none true 7 true))] }
 
-theorem abs_binding_counterexample :
+theorem abs_binding_counterexample_prefix_naming :
     check [exTop, exAbsB] = [] ∧
     check [exTop, exAbsA] = ["noPort|Top|i_abs|inverted", "driverCount|Top|inverted|0"] ∧
     sameSig exAbsA exAbsB = false := by decide
 
-example : WellFormed [exTop, exAbsB] := check_sound _ abs_binding_counterexample.1
+example : WellFormed [exTop, exAbsB] := check_sound _ abs_binding_counterexample_prefix_naming.1
 example : ¬ WellFormed [exTop, exAbsA] := fun h => by
   have := check_complete _ h
-  rw [abs_binding_counterexample.2.1] at this
+  rw [abs_binding_counterexample_prefix_naming.2.1] at this
   simp at this
 
 /-- two definitions under one name are themselves an error, whatever their signatures -/
